@@ -11,6 +11,7 @@ import importlib
 import json
 import os
 import random
+import re
 import subprocess
 import sys
 import time
@@ -61,6 +62,14 @@ def _jsonable(o):
     if isinstance(o, bytes):
         return o.hex()
     return repr(o)
+
+
+_SCRUB = re.compile(r"verif-(w|home)-[A-Za-z0-9_]+")
+
+
+def scrub(text):
+    """Remove per-run scratch directory names from messages (violation records must replay identically)."""
+    return _SCRUB.sub(r"verif-\\1-X", str(text))
 
 
 def dumps(obj, **kw):
